@@ -111,6 +111,11 @@ def new_net() -> SimNet:
     return SimNet()
 
 
+class OperationNeverTerminates(Exception):
+    """The operation under observation spun without virtual time advancing (vloop.VirtualLivelock): on a real system it would
+    never return.  Re-raised as an ordinary exception so that it is judged like any other failure of the operation."""
+
+
 class CancelledErrorEscaped(Exception):
     """asyncio.CancelledError came out of the top-level coroutine although nobody cancelled it: some library call let a
     cancellation of one of its own tasks escape.  Re-raised as an ordinary exception so that every check's
@@ -127,6 +132,8 @@ def run_virtual(coro_fn, net=None, epoch=None, start: float = 0.0):
         return vloop.run(coro_fn, net=net, epoch=epoch, start=start)
     except asyncio.CancelledError as e:
         raise CancelledErrorEscaped("asyncio.CancelledError escaped the operation") from e
+    except vloop.VirtualLivelock as e:
+        raise OperationNeverTerminates(str(e)) from e
 
 
 def public_state(ac) -> dict:
